@@ -308,7 +308,7 @@ func DoShape(env *world.Env, x *hist.Exec, op world.Op, at string) {
 		fail("image/stray", "after patching %s: %s", s.Name, msg)
 	}
 	// several inputs through the trampoline, so that both sides of every relocated branch run
-	for _, v := range []int64{in, 7, 0, 12, 9} {
+	for _, v := range []int64{in, 7, 0, 12, 9, -3} {
 		asm.Input, asm.Result, asm.Aux, asm.Calls = v, -99, 0, 0
 		calls = 0
 		// reference for this input from an independent evaluation of the shape's definition
@@ -379,6 +379,41 @@ func shapeRef(name string, in int64) (int64, int64) {
 			return -600, 0
 		}
 		return in + 6, 0
+	case "ShapeJLE":
+		if in <= 7 {
+			return -2000 + in, 0
+		}
+		return in + 20, 0
+	case "ShapeJGE":
+		if in >= 7 {
+			return -2100 + in, 0
+		}
+		return in + 21, 0
+	case "ShapeJHI":
+		if uint64(in) > 7 {
+			return -2200 + in, 0
+		}
+		return in + 22, 0
+	case "ShapeJCC":
+		if uint64(in) >= 7 {
+			return -2300 + in, 0
+		}
+		return in + 23, 0
+	case "ShapeJCS":
+		if uint64(in) < 7 {
+			return -2400 + in, 0
+		}
+		return in + 24, 0
+	case "ShapeJMI":
+		if in-7 < 0 {
+			return -2500 + in, 0
+		}
+		return in + 25, 0
+	case "ShapeJPL":
+		if in-7 >= 0 {
+			return -2600 + in, 0
+		}
+		return in + 26, 0
 	case "ShapeLEA":
 		return in + 5, 0
 	case "ShapeCMPM":
